@@ -205,6 +205,29 @@ func (w *World) cycleInvariants(c *cycleRec, tr *cyc.CycleTrace, phase string) {
 				}
 			}
 		}
+		// C16, closed loop: a shard is treated as in sync exactly when it runs the coordinator's
+		// configuration (same semantic revision; external labels and comments do not count)
+		if e.Property == "C16" {
+			for _, s := range rep.Shards {
+				p := w.podByName(s.ID)
+				if p == nil || !p.Running || !s.Ready || !s.StatusOK || len(s.RT) == 0 || !s.RTLastOK {
+					continue
+				}
+				podSem := SemOf(string(p.SC.ConfigManager.ConfigInfo().RawContent))
+				coordSem := SemOf(c.Raw)
+				mode := "push"
+				if p.FileMode {
+					mode = "file"
+				}
+				e.Key("world-insync", mode, fmt.Sprintf("same=%v", podSem == coordSem), fmt.Sprintf("insync=%v", s.InSync))
+				if s.InSync && podSem != coordSem {
+					e.Violate("world-in-sync-with-other-config", "mode="+mode, "cycle %d: shard %s runs configuration revision %d, the coordinator %d, but it is treated as in sync", c.N, s.ID, podSem, coordSem)
+				}
+				if !s.InSync && podSem == coordSem {
+					e.Violate("world-out-of-sync-with-same-config", "mode="+mode, "cycle %d: shard %s runs the coordinator's configuration (revision %d; only external labels / comments differ) but is treated as out of sync (reported hash %q, coordinator %q)", c.N, s.ID, podSem, s.RT[len(s.RT)-1].ConfigHash, c.Hash)
+				}
+			}
+		}
 		// remember how many scrapes a pod had made when one of its copies was marked in_transfer
 		for _, s := range rep.Shards {
 			if s.Post == nil || !s.PostDelivered {
@@ -213,6 +236,9 @@ func (w *World) cycleInvariants(c *cycleRec, tr *cyc.CycleTrace, phase string) {
 			for h, t := range s.Post {
 				if st, had := s.Rep[h]; had && st.TargetState == "" && t.TargetState == "in_transfer" {
 					w.markAt[s.ID+"/"+w.addrOf[h]] = w.scrapeFrom[w.addrOf[h]][s.ID]
+				}
+				if t.TargetState == "" {
+					delete(w.markAt, s.ID+"/"+w.addrOf[h])
 				}
 			}
 		}
@@ -228,6 +254,22 @@ func (w *World) cycleInvariants(c *cycleRec, tr *cyc.CycleTrace, phase string) {
 						e.Violate("world-removes-shard-in-use", "", "cycle %d: %d shards requested although %s still scrapes targets (by the sidecar's own status)", c.N, x.Value, p.Name)
 					} else if x.Now.Sub(*p.EmptySince) <= sc.Opt.MaxIdleTime || sc.Opt.MaxIdleTime == 0 {
 						e.Violate("world-removes-shard-not-idle-long-enough", "", "cycle %d: %d shards requested, removing %s which has been without targets for only %s (max-idle-time %s)", c.N, x.Value, p.Name, x.Now.Sub(*p.EmptySince), sc.Opt.MaxIdleTime)
+					}
+				}
+			}
+		}
+		// C05, closed loop: the scrape count a source reports for a copy in transfer never exceeds
+		// the scrapes its proxy has really completed since the move began
+		if e.Property == "C05" {
+			for _, s := range rep.Shards {
+				for h, st := range s.Rep {
+					addr := w.addrOf[h]
+					mark, known := w.markAt[s.ID+"/"+addr]
+					if st.TargetState != "in_transfer" || !known {
+						continue
+					}
+					if truth := w.scrapeFrom[addr][s.ID] - mark; int(st.ScrapeTimes) > truth {
+						e.Violate("world-source-count-includes-earlier-scrapes", "", "cycle %d: %s reports %d scrapes of %s since it was marked in_transfer, but its proxy has completed only %d since then", c.N, s.ID, st.ScrapeTimes, addr, truth)
 					}
 				}
 			}
